@@ -237,7 +237,7 @@ def _prime(mod, sub, tier, seed):
         strat = other.strategy(tier) if callable(other.strategy) else other.strategy
 
         @hypothesis.seed(seed * 31 + k)
-        @_hyp_settings(2, tier)
+        @_hyp_settings(3, tier)
         @given(strat)
         def prime(case, other=other):
             evaluate(other, case)
